@@ -193,6 +193,22 @@ def _seq_key(sy, base, lo, hi):
     return (sy.name(base), str(lo), None if hi is None else str(hi))
 
 
+def _set_elem_type(sy, base, enum):
+    """type of the element placeholder (float comparisons must not be normalised as integer ones)"""
+    try:
+        bty = sy.type_of(base)
+        ety = None
+        if bty is not None and bty.get("k") in ("slice", "array"):
+            ety = bty.get("t")
+        elif bty is not None and bty.get("k") == "adt" and bty.get("a"):
+            ety = bty["a"][0]
+        if ety is not None and enum:
+            ety = {"k": "tuple", "ts": [{"k": "int", "w": 64, "s": False}, ety]}
+        sy.placeholder_ty = {90: ety} if ety is not None else {}
+    except Exception:
+        sy.placeholder_ty = {}
+
+
 QUANT = {"Iterator::position": ("none", False), "Iterator::find": ("none", False), "Iterator::any": ("false", False),
          "Iterator::all": ("true", True), "Iterator::rposition": ("none", False)}
 
@@ -251,6 +267,7 @@ def forall_facts(prog, an, sy, target):
         if elem is None:
             continue
         pred = _subst(pred, ("carg", 0), elem)
+        _set_elem_type(sy, base, enum)
         try:
             ats = sy.bool_atoms(pred, positive)
         except Exception:
@@ -326,6 +343,7 @@ def row_rewrites(prog, an, sy):
         if elem is None:
             continue
         pred = _subst(subst_upvars(rets[0], ci[1]), ("carg", 0), elem)
+        _set_elem_type(sy, base, enum)
         try:
             pos_ats = _names(sy, sy.bool_atoms(pred, True), enum, "arg90")
             neg_ats = _names(sy, sy.bool_atoms(pred, False), enum, "arg90")
@@ -374,14 +392,45 @@ def row_rewrites(prog, an, sy):
     return out
 
 
+def rewrite_rows(rws, atoms, value):
+    """rows [(atoms, value)] of one path in the quantified vocabulary; a `find(P).unwrap()` / `position(P).unwrap()`
+    whose outcome no guard tests is split into the found case and the `None.unwrap()` case first (the loop form has
+    those two exits as separate paths)"""
+    todo = [(list(atoms), value)]
+    for r in rws:
+        nm = r["some"][:-len(" is Some")] if r["some"].endswith(" is Some") else None
+        if nm is None:
+            continue
+        nxt = []
+        for ats, val in todo:
+            hit = [u for u in ("Option::<T>::unwrap(%s)" % nm, "Option::<T>::expect(%s" % nm) if u in val or any(u in a for a in ats)]
+            if hit and r["some"] not in ats and r["none"] not in ats:
+                u = hit[0]
+
+                def none_form(s_):
+                    if u.startswith("Option::<T>::unwrap("):
+                        return s_.replace(u, "Option::<T>::unwrap(None{})")
+                    return s_
+                payload = "(%s as Some).0" % nm
+                some_form = (lambda s_: s_.replace(u, payload)) if u.startswith("Option::<T>::unwrap(") else (lambda s_: s_)
+                nxt.append(([some_form(a) for a in ats] + [r["some"]], some_form(val)))
+                nxt.append(([none_form(a) for a in ats] + [r["none"]], none_form(val)))
+            else:
+                nxt.append((ats, val))
+        todo = nxt
+    return [rewrite_row(rws, a, v) for a, v in todo]
+
+
 def rewrite_row(rws, atoms, value):
     """atoms (list of str), value (str) of one path in the quantified vocabulary"""
     atoms = list(atoms)
     for r in rws:
-        tag = "%s@%s" % ("(i,x)" if r["enum"] else "x", r["seq"])
+        tag = "x@%s" % r["seq"]
         if r["none"] in atoms and r["forall"]:
             atoms.remove(r["none"])
-            atoms.append("forall %s in %s: %s" % ("(i, x)" if r["enum"] else "x", r["seq"], " && ".join(r["forall"])))
+            import re as _re
+            uses_i = r["enum"] and any(_re.search(r"\bi\b", a_) for a_ in r["forall"])
+            atoms.append("forall %s in %s: %s" % ("(i, x)" if uses_i else "x", r["seq"], " && ".join(r["forall"])))
         elif r["some"] in atoms:
             wit = r["witness"]
             idx = r["index"]
@@ -402,6 +451,14 @@ def rewrite_row(rws, atoms, value):
                 return s_
             atoms = [rep(a) for a in atoms]
             value = rep(value)
+    # the element at the witness index is the witness, however it is reached
+    for r in rws:
+        ix = "Index::index(%s,i@%s)" % (r["base"], r["seq"])
+        tg = "x@%s" % r["seq"]
+        atoms = [a.replace(ix, tg) for a in atoms]
+        value = value.replace(ix, tg)
+    if "Option::<T>::unwrap(None{})" in value:
+        value = "panic!(unwrap of None)"           # whatever surrounds it is never computed
     return sorted(set(_canon_diff(a) if "@" in a else a for a in atoms)), value
 
 
